@@ -884,7 +884,8 @@ def w8(proj, rep, modules):
 
 # ------------------------------------------------------------------------------------------------ DOM1
 RULE_DOM1 = ('DOM1: the integer domain that a public function admits through its `assert`s is not narrower than the domain the property quantifies over '
-             '(frozen table: smallest admissible value per parameter). A tightened precondition (`num_qudit > 1` for `>= 1`) turns a documented input into an '
+             '(frozen table: smallest admissible value per parameter; the bound is the strongest one met along the chain of numqi callees that receive the parameter as a bare name). '
+             'A tightened precondition (`num_qudit > 1` for `>= 1`) turns a documented input into an '
              'AssertionError - or, under `python -O`, into whatever the unguarded code does.')
 DOM1_TABLE = {
     'numqi.dicke.get_dicke_basis': {'num_qudit': 1, 'dim': 2},
@@ -915,6 +916,52 @@ def _lower_bounds(test, out):
                 out[r.id] = max(out.get(r.id, -10**9), l.value)
 
 
+DOM1_TABLE_C05 = {
+    'numqi.entangle.symext.is_ABk_symmetric_ext': {'kext': 1},
+    'numqi.entangle.symext.get_ABk_symmetric_extension_boundary': {'kext': 1},
+    'numqi.group.symext.get_symmetric_extension_irrep_coeff': {'kext': 1, 'dim': 2},
+}
+
+
+def _effective_bounds(proj, fi, depth=0, _seen=None):
+    """param -> (smallest admitted integer, the assert that sets it), following bare-name arguments into numqi callees (depth <= 4)"""
+    from ..project import bind_call
+    _seen = _seen or set()
+    lb, why = {}, {}
+    for a in [s for s in fi.node.body if isinstance(s, ast.Assert)]:
+        tmp = {}
+        _lower_bounds(a.test, tmp)
+        for k, v in tmp.items():
+            if v > lb.get(k, -10**9):
+                lb[k], why[k] = v, (fi, a)
+    if depth >= 4 or fi.qual in _seen:
+        return lb, why
+    for c in ast.walk(fi.node):
+        if not isinstance(c, ast.Call):
+            continue
+        r = resolve_callee(proj, fi.module, c)
+        callee = r.node if r.kind == 'func' else None
+        if callee is None or callee is fi:
+            continue
+        try:
+            b = bind_call(c, callee)
+        except Exception:
+            continue
+        passed = {}
+        for p, arg in b.args.items():
+            if isinstance(arg, ast.Call) and isinstance(arg.func, ast.Name) and arg.func.id == 'int' and len(arg.args) == 1:
+                arg = arg.args[0]
+            if isinstance(arg, ast.Name) and arg.id in fi.all_params:
+                passed[p] = arg.id
+        if not passed:
+            continue
+        clb, cwhy = _effective_bounds(proj, callee, depth + 1, _seen | {fi.qual})
+        for p, mine in passed.items():
+            if p in clb and clb[p] > lb.get(mine, -10**9):
+                lb[mine], why[mine] = clb[p], cwhy[p]
+    return lb, why
+
+
 def dom1(proj, rep, table=None):
     rep.rule('DOM1', RULE_DOM1)
     n = 0
@@ -922,10 +969,8 @@ def dom1(proj, rep, table=None):
         fi = proj.func(q)
         m = fi.module
         rep.touch(m)
-        lb = {}
+        lb, why = _effective_bounds(proj, fi)
         asserts = [s for s in fi.node.body if isinstance(s, ast.Assert)]
-        for a in asserts:
-            _lower_bounds(a.test, lb)
         for p, lo in want.items():
             if p not in fi.all_params:
                 rep.undecided('DOM1', q, f'parameter `{p}` not found', m, fi.node, text=f'{q}.{p} domain')
@@ -933,8 +978,10 @@ def dom1(proj, rep, table=None):
             n += 1
             got = lb.get(p)
             if got is not None and got > lo:
-                a = next(a for a in asserts if any(isinstance(x, ast.Name) and x.id == p for x in ast.walk(a.test)))
-                rep.violation('DOM1', q, f'`{ast.unparse(a)[:70]}` admits `{p}` only from {got}; the property quantifies from {lo}: `{p}={lo}` is now rejected', m, a)
+                wfi, a = why[p]
+                where = '' if wfi is fi else f' (reached through the call chain, in {wfi.qual})'
+                rep.violation('DOM1', q, f'`{ast.unparse(a)[:70]}`{where} admits `{p}` only from {got}; the property quantifies from {lo}: `{p}={lo}` is now rejected',
+                              wfi.module, a)
             else:
                 rep.ok('DOM1', q, f'`{p}` admitted from {got if got is not None else "-inf"} (needed: {lo})', m, fi.node, text=f'{q}.{p} domain')
     rep.count('DOM1.parameters', n)
@@ -1593,4 +1640,167 @@ def dt7(proj, rep, modules=None):
                 else:
                     rep.ok('DT7', fi.qual, f'`{ast.unparse(c)[:50]}` keeps the complex field', m, c)
     rep.count('DT7.casts_of_complex_capable_arrays', n)
+    return n
+
+
+# ------------------------------------------------------------------------------------------------ RS1
+RULE_RS1 = ('RS1: a matricisation `x.transpose(*rows, *cols).reshape(R, -1)` whose axes come from a loop / comprehension variable takes its row size R from the SAME '
+            'variable: a row size computed once for a group of bipartitions (from its first member) is right only when all local dimensions are equal; for unequal '
+            'dimensions the reshape is legal but is no longer the bipartition rows | cols.')
+
+
+def rs1(proj, rep, modules=None):
+    rep.rule('RS1', RULE_RS1)
+    n = 0
+    for fi in proj.iter_functions():
+        m = fi.module
+        if not _in_scope(m, modules):
+            continue
+        for c in ast.walk(fi.node):
+            if not (isinstance(c, ast.Call) and isinstance(c.func, ast.Attribute) and c.func.attr == 'reshape' and len(c.args) == 2
+                    and ast.unparse(c.args[1]).replace(' ', '') == '-1' and isinstance(c.func.value, ast.Call) and isinstance(c.func.value.func, ast.Attribute)
+                    and c.func.value.func.attr == 'transpose'):
+                continue
+            tr = c.func.value
+            star = [a.value.id for a in tr.args if isinstance(a, ast.Starred) and isinstance(a.value, ast.Name)]
+            if not star:
+                continue
+            # loop / comprehension that binds the starred names
+            binder = None
+            for p in _ancestors(c, fi.node):
+                tg = None
+                if isinstance(p, ast.For):
+                    tg = p.target
+                elif isinstance(p, (ast.ListComp, ast.GeneratorExp, ast.SetComp)):
+                    tg = p.generators[0].target
+                if tg is not None and {x.id for x in ast.walk(tg) if isinstance(x, ast.Name)} & set(star):
+                    binder = p
+                    break
+            if binder is None:
+                continue
+            n += 1
+            rep.touch(m)
+            R = c.args[0]
+            dep = set(star)
+            # names (re)bound inside the binder from the starred names
+            body_nodes = list(ast.walk(binder))
+            changed = True
+            while changed:
+                changed = False
+                for s in body_nodes:
+                    if isinstance(s, ast.Assign) and isinstance(s.targets[0], ast.Name) and s.targets[0].id not in dep \
+                            and any(isinstance(y, ast.Name) and y.id in dep for y in ast.walk(s.value)):
+                        dep.add(s.targets[0].id)
+                        changed = True
+            rn = {y.id for y in ast.walk(R) if isinstance(y, ast.Name)}
+            if rn & dep:
+                rep.ok('RS1', fi.qual, f'`{ast.unparse(c)[:60]}`: row size follows the loop variable', m, c)
+            else:
+                rep.violation('RS1', fi.qual, f'`{ast.unparse(c)[:80]}`: the axes follow `{star[0]}` but the row size `{ast.unparse(R)}` is computed outside the loop: wrong matricisation '
+                              f'for every member whose row dimensions differ from the first one', m, c)
+    rep.count('RS1.loop_matricisations', n)
+    return n
+
+
+# ------------------------------------------------------------------------------------------------ F9 / CC1 / I2
+RULE_F9 = ('F9: a squared distance is not computed as the difference of two separately computed squared norms (`|x|^2 - |tr x|^2/N` under a square root): near '
+           'the centre both terms agree to ~16 digits and the difference keeps none - a clamp at zero removes the NaN, not the error (5 % at distance 1e-8). '
+           'Subtract first, then take the norm.')
+RULE_CC1 = ('CC1: a batch that was stacked block-wise (`np.concatenate([a, b], axis=0)`: all of a, then all of b) and pushed through one batched call is unfolded '
+            'block-major, `reshape(2, -1)` + reduction over axis 0. `reshape(-1, 2)` pairs neighbouring items instead: right only for a batch of one.')
+RULE_I2 = ('I2: the interpolation helper places the state at exactly the requested parameter: `alpha = beta / dm_norm` is not clamped (min / max / clip); beyond the '
+           'given state the ray continues, and a clamp silently returns the state itself for every larger beta.')
+
+
+def f9(proj, rep, modules):
+    rep.rule('F9', RULE_F9)
+    n = 0
+    for fi in proj.iter_functions():
+        m = fi.module
+        if not _in_scope(m, modules):
+            continue
+        for c in ast.walk(fi.node):
+            if not (isinstance(c, ast.Call) and c.args and numeric._ext(proj, m, c) in ('numpy.sqrt', 'torch.sqrt', 'math.sqrt')):
+                continue
+            n += 1
+            subs = [b for b in ast.walk(c.args[0]) if isinstance(b, ast.BinOp) and isinstance(b.op, ast.Sub) and isinstance(b.left, ast.Name) and isinstance(b.right, ast.Name)]
+            for b in subs:
+                def squared_norm(name):
+                    for v, st, p in reaching_defs(fi.node, name, c):
+                        if v == 'param' or not isinstance(v, ast.AST):
+                            return False
+                        t = ast.unparse(v).replace(' ', '')
+                        if not (('**2' in t or 'vdot' in t) and ('norm(' in t or 'trace(' in t or 'abs(' in t or 'vdot(' in t)):
+                            return False
+                    return True
+                if squared_norm(b.left.id) and squared_norm(b.right.id):
+                    rep.touch(m)
+                    rep.violation('F9', fi.qual, f'`{ast.unparse(c)[:70]}`: `{b.left.id} - {b.right.id}` is the difference of two separately computed squared norms: '
+                                  f'catastrophic cancellation when they are nearly equal (the clamp only hides the sign)', m, c)
+    rep.count('F9.sqrt_sites', n)
+    if n:
+        rep.ok('F9', 'scope', f'{n} square roots: none of a difference of two separately computed squared norms', proj.mod('numqi.gellmann'), proj.mod('numqi.gellmann').tree,
+               text='norm difference sweep')
+    return n
+
+
+def cc1(proj, rep, modules=None):
+    rep.rule('CC1', RULE_CC1)
+    n = 0
+    for fi in proj.iter_functions():
+        m = fi.module
+        if not _in_scope(m, modules):
+            continue
+        blocked = {}
+        for s in ast.walk(fi.node):
+            if not (isinstance(s, ast.Assign) and isinstance(s.value, ast.Call)):
+                continue
+            k = None
+            for a in list(s.value.args) + [kw.value for kw in s.value.keywords]:
+                for cc in ast.walk(a):
+                    if isinstance(cc, ast.Call) and ast.unparse(cc.func).split('.')[-1] in ('concatenate', 'concat', 'cat') and cc.args and isinstance(cc.args[0], (ast.List, ast.Tuple)) \
+                            and len(cc.args[0].elts) >= 2 and any(kw.arg in ('axis', 'dim') and isinstance(kw.value, ast.Constant) and kw.value.value == 0 for kw in cc.keywords):
+                        k = len(cc.args[0].elts)
+            if k is None or ast.unparse(s.value.func).split('.')[-1] in ('concatenate', 'concat', 'cat'):
+                continue
+            tg = s.targets[0]
+            for t in (tg.elts if isinstance(tg, ast.Tuple) else [tg]):
+                if isinstance(t, ast.Name):
+                    blocked[t.id] = (k, s)
+        for c in ast.walk(fi.node):
+            if isinstance(c, ast.Call) and isinstance(c.func, ast.Attribute) and c.func.attr == 'reshape' and isinstance(c.func.value, ast.Name) and c.func.value.id in blocked \
+                    and len(c.args) == 2:
+                k, s = blocked[c.func.value.id]
+                a0, a1 = [ast.unparse(a).replace(' ', '') for a in c.args]
+                if (a0, a1) == ('-1', str(k)):
+                    n += 1
+                    rep.touch(m)
+                    rep.violation('CC1', fi.qual, f'`{ast.unparse(c)}`: `{c.func.value.id}` comes from a batch stacked block-wise by `{ast.unparse(s)[:60]}`; reshape(-1, {k}) pairs '
+                                  f'neighbouring items, not item i of each block', m, c)
+                elif (a0, a1) == (str(k), '-1'):
+                    n += 1
+                    rep.touch(m)
+                    rep.ok('CC1', fi.qual, f'`{ast.unparse(c)}` unfolds the blocks block-major', m, c)
+    rep.count('CC1.block_unfoldings', n)
+    return n
+
+
+def i2(proj, rep):
+    rep.rule('I2', RULE_I2)
+    fi = proj.func('numqi.entangle._misc.hf_interpolate_dm')
+    m = fi.module
+    rep.touch(m)
+    n = 0
+    for s in ast.walk(fi.node):
+        if isinstance(s, ast.Assign) and isinstance(s.targets[0], ast.Name) and s.targets[0].id == 'alpha':
+            n += 1
+            sat = [c for c in ast.walk(s.value) if isinstance(c, ast.Call) and ast.unparse(c.func).split('.')[-1] in ('min', 'max', 'clip', 'minimum', 'maximum', 'clamp')]
+            if sat:
+                rep.violation('I2', fi.qual, f'`{ast.unparse(s)[:60]}` clamps the interpolation parameter: every beta beyond the clamp returns the same state, not the state at '
+                              f'distance beta', m, s)
+            else:
+                rep.ok('I2', fi.qual, f'`{ast.unparse(s)[:50]}` unclamped', m, s)
+    if n == 0:
+        rep.undecided('I2', fi.qual, 'assignment of alpha not found', m, fi.node, text='alpha')
+    rep.count('I2.alpha_assignments', n)
     return n
